@@ -169,6 +169,22 @@ pub fn run(em: &mut Emit, thorough: bool, seed: u64) {
         emit_program(em, "s[9223372036854775807]", &spec, "nt=1;kind=str-index");
         emit_program(em, "s[-9223372036854775808]", &spec, "nt=1;kind=str-index");
     }
+    // lengths around the sizes at which buffers or small-size shortcuts change
+    for &n in &[15usize, 16, 17, 31, 32, 33, 63, 64, 65, 127, 128, 129, 255, 256, 257, 1023, 1024, 1025] {
+        let l: Vec<Value> = (0..n).map(|i| Value::Int(i as i64)).collect();
+        let st: String = (0..n).map(|i| if i % 7 == 3 { 'é' } else { (b'a' + (i % 26) as u8) as char }).collect();
+        let spec = CtxSpec {
+            vars: vec![("l".into(), Value::List(Arc::new(l))), ("s".into(), Value::String(Arc::new(st.clone()))),
+                       ("k".into(), Value::Int(n as i64))],
+            funs: vec![],
+        };
+        for p in ["l[0]", "l[k - 1]", "l[k]", "l[k / 2]", "size(l)", "(k - 1) in l", "k in l", "l + l", "size(l + [1]) == k + 1",
+                  "(l + [k])[k]", "[0] + l", "l.contains(k - 1)", "size(s)", "s + s", "s + 'é'", "'é' + s", "size(s + s) == 2 * size(s)",
+                  "s.contains('é')", "s.startsWith(s)", "s.endsWith(s)", "(s + 'x').endsWith('x')", "('x' + s).startsWith('x')",
+                  "s == s + ''", "l == l + []", "l + [1] == l", "s + 'a' == s"] {
+            emit_program(em, p, &spec, "nt=1;kind=threshold");
+        }
+    }
     // additive laws on random strings and lists (the operands stay intact: re-read after +)
     let mut rng = Rng::new(seed ^ 0xC14);
     let alpha_s = ["a", "b", "é", "😀", " ", "0"];
